@@ -7,7 +7,7 @@ S=/tmp/wt/$W/_seed
 mkdir -p /verif/seeded/$ID
 cp -a $S/. /verif/seeded/$ID/
 echo "== demo on patched tree"; (cd /tmp && timeout 600 bash $S/demo.sh /tmp/wt/$W >/tmp/demo_p.log 2>&1; echo "exit=$?")
-if [ -d /tmp/wt/${W}_base ]; then echo "== demo on base tree"; (cd /tmp && timeout 600 bash $S/demo.sh /tmp/wt/${W}_base >/tmp/demo_b.log 2>&1; echo "exit=$?"); else echo "no base tree: building"; /verif/tools/mkworktree.sh ${W}_base >/dev/null; (cd /tmp && timeout 600 bash $S/demo.sh /tmp/wt/${W}_base >/tmp/demo_b.log 2>&1; echo "exit=$?"); fi
+if [ -d /tmp/wt/base ]; then echo "== demo on base tree"; (cd /tmp && timeout 600 bash $S/demo.sh /tmp/wt/base >/tmp/demo_b.log 2>&1; echo "exit=$?"); elif [ -d /tmp/wt/${W}_base ]; then echo "== demo on base tree"; (cd /tmp && timeout 600 bash $S/demo.sh /tmp/wt/${W}_base >/tmp/demo_b.log 2>&1; echo "exit=$?"); else echo "no base tree: building"; /verif/tools/mkworktree.sh ${W}_base >/dev/null; (cd /tmp && timeout 600 bash $S/demo.sh /tmp/wt/${W}_base >/tmp/demo_b.log 2>&1; echo "exit=$?"); fi
 cd /repo
 git status --short | grep -v '^??' && { echo "/repo not clean"; exit 1; }
 git apply --check $S/patch.diff || { echo "patch does not apply to /repo"; exit 1; }
